@@ -135,6 +135,11 @@ class Gen:
         return Node("cdict", ["ann", {name: val}, ["mapping", ["str"], t.lean]], f"Annotated[Dict[str, {t.py}], schema({name}={val})]", [t], cons=(name, val))
     # --- containers
     def g_list(self, d): t = self.ty(d - 1); return Node("list", ["list", t.lean], f"List[{t.py}]", [t])
+    def g_sequence(self, d):
+        """abstract collection annotations: deserialized like a list; any sequence value must serialize to a list"""
+        t = self.ty(d - 1); ann = self.rnd.choice(["Sequence", "Collection", "MutableSequence"])
+        n = Node("list", ["list", t.lean], f"{ann}[{t.py}]", [t]); n.tags = ("abstract-collection",)
+        return n
     def g_set(self, d):
         t = self.hashable_ty(d - 1); return Node("set", ["set", t.lean], f"Set[{t.py}]", [t])
     def g_frozenset(self, d):
